@@ -49,6 +49,15 @@ pub struct Case {
     /// the bank holding the account's assets is an isolated-tier bank (weights 0: its deposits back no borrowing)
     #[serde(default)]
     pub assets_isolated: bool,
+    /// the entitled key is merely named in the signer slot: a stranger signs and pays for the transaction
+    #[serde(default)]
+    pub unsigned: bool,
+    /// the oracle of the bank holding the account's assets has not been updated for an hour (the debt bank's is fresh)
+    #[serde(default)]
+    pub assets_oracle_stale: bool,
+    /// the account owes a second bank as well (its bad debt there is settled by a separate call)
+    #[serde(default)]
+    pub second_debt: bool,
 }
 
 fn bank_spec_by(name: &str) -> BankSpec {
@@ -130,9 +139,40 @@ pub fn prepare(w: &World, s0: &Store, c: &Case) -> Store {
             }
         });
     }
+    if c.second_debt {
+        // $3 owed to bank X as well (forged like the main debt, bank total raised to match)
+        let bx = w.banks[2].key;
+        let sh = I80F48::from_num(3_000_000) / I80F48::from(world::bank(&s, &bx).liability_share_value);
+        world::edit_bank(&mut s, &bx, |b| {
+            b.total_liability_shares = (I80F48::from(b.total_liability_shares) + sh).into();
+            b.borrowing_position_count += 1;
+        });
+        world::edit_account(&mut s, &w.users[0].account, |a| {
+            let mut bals: Vec<marginfi_type_crate::types::Balance> = a.lending_account.balances.iter().filter(|b| b.active != 0).cloned().collect();
+            let mut nb = marginfi_type_crate::types::Balance::empty_deactivated();
+            nb.active = 1;
+            nb.bank_pk = bx;
+            nb.liability_shares = sh.into();
+            nb.last_update = 1_700_000_000;
+            bals.push(nb);
+            bals.sort_by(|x, y| y.bank_pk.cmp(&x.bank_pk));
+            for (i, slot) in a.lending_account.balances.iter_mut().enumerate() {
+                *slot = if i < bals.len() { bals[i] } else { marginfi_type_crate::types::Balance::empty_deactivated() };
+            }
+        });
+    }
     world::edit_account(&mut s, &w.users[0].account, |a| a.account_flags |= c.account_flags);
     if c.ins > 0 {
         mint_to(&mut s, &w.mint_auth, &w.banks[0].mint, &w.banks[0].iv, w.banks[0].t22, c.ins);
+    }
+    if c.assets_oracle_stale {
+        // time passes; every oracle but the asset bank's is cranked
+        s.advance(3_600);
+        let keep = w.banks[1].oracle.and_then(|o| s.get(&o).cloned());
+        refresh_oracles(&mut s, w);
+        if let (Some(o), Some(a)) = (w.banks[1].oracle, keep) {
+            s.set(o, a);
+        }
     }
     // the borrowed tokens are long gone; keep the vault at deposits (irrelevant for this property)
     s
@@ -142,13 +182,30 @@ fn tx_of(w: &World, s: &Store, c: &Case) -> Tx {
     let signer = act::signer_key(w, &c.signer, Some(0));
     let b = c.target as usize;
     let a = Action::Bankruptcy { signer: c.signer.clone(), u: 0, b };
-    let i = act::user_ix(w, s, &a, signer).unwrap();
+    let mut i = act::user_ix(w, s, &a, signer).unwrap();
+    if c.unsigned {
+        for m in i.accounts.iter_mut() {
+            if m.pubkey == signer {
+                m.is_signer = false;
+            }
+        }
+        return Tx::one(i, &[act::stranger()]);
+    }
     Tx::one(i, &[signer])
 }
 
 fn sig(c: &Case) -> String {
     if c.assets_isolated {
         return "assets_in_isolated_tier_bank".into();
+    }
+    if c.unsigned {
+        return format!("{:?}:named_not_signing", c.signer);
+    }
+    if c.assets_oracle_stale {
+        return "assets_oracle_stale".into();
+    }
+    if c.second_debt {
+        return format!("second_debt:{:?}", c.signer);
     }
     format!("{}:{:?}:perm{}:target{}:flags{}", c.bank, c.signer, c.permissionless, c.target, c.account_flags)
 }
@@ -222,7 +279,10 @@ pub fn judge(w: &World, s0: &Store, c: &Case) -> Judged {
     if !(unweighted < eq.liabs.clone() + tol.clone()) || !(unweighted < rf::qfrac(1, 10) + tol.clone()) {
         fail("C07.only_real_bad_debt", format!("bankruptcy accepted with unweighted assets ${:.6}{} and liabilities ${:.6}", rf::qf64(&unweighted), if eq.isolated_unweighted > rf::qzero() { " (held in an isolated-tier bank)" } else { "" }, rf::qf64(&eq.liabs)));
     }
-    let entitled = matches!(c.signer, Signer::GroupAdmin | Signer::RiskAdmin) || c.permissionless;
+    if c.assets_oracle_stale && c.assets > 0 {
+        fail("C07.only_real_bad_debt", format!("bankruptcy accepted although the oracle of the bank holding the account's {} native units of assets is stale: their worth was not established", c.assets));
+    }
+    let entitled = (matches!(c.signer, Signer::GroupAdmin | Signer::RiskAdmin) && !c.unsigned) || c.permissionless;
     if !entitled {
         fail("C07.signer_entitled", format!("bankruptcy accepted from {:?} on a bank without permissionless settlement", c.signer));
     }
@@ -326,7 +386,7 @@ pub fn cases(tier: Tier, bank: &str, dist: usize, deposits: u64) -> Vec<Case> {
                 }
                 for &lsv in &lsvs {
                     for (signer, perm) in signers.iter() {
-                        v.push(Case { bank: bank.into(), dist, ins, debt_raw: debt.to_string(), lsv_raw: lsv.to_string(), signer: signer.clone(), permissionless: *perm, target: 0, assets: 0, account_flags: 0, stale_s: 0, assets_reduce_only: false, assets_init_limit: 0, assets_isolated: false });
+                        v.push(Case { bank: bank.into(), dist, ins, debt_raw: debt.to_string(), lsv_raw: lsv.to_string(), signer: signer.clone(), permissionless: *perm, target: 0, assets: 0, account_flags: 0, stale_s: 0, assets_reduce_only: false, assets_init_limit: 0, assets_isolated: false, unsigned: false, assets_oracle_stale: false, second_debt: false });
                     }
                 }
             }
@@ -338,7 +398,7 @@ pub fn cases(tier: Tier, bank: &str, dist: usize, deposits: u64) -> Vec<Case> {
         for target in [0u8, 1, 2] {
             for flags in [0u64, ACCOUNT_IN_FLASHLOAN, ACCOUNT_IN_RECEIVERSHIP, ACCOUNT_DISABLED] {
                 for (signer, perm) in [(Signer::RiskAdmin, false), (Signer::Stranger, true), (Signer::Stranger, false)] {
-                    v.push(Case { bank: bank.into(), dist, ins: 1_000, debt_raw: debt.to_string(), lsv_raw: one.to_string(), signer, permissionless: perm, target, assets, account_flags: flags, stale_s: 0, assets_reduce_only: false, assets_init_limit: 0, assets_isolated: false });
+                    v.push(Case { bank: bank.into(), dist, ins: 1_000, debt_raw: debt.to_string(), lsv_raw: one.to_string(), signer, permissionless: perm, target, assets, account_flags: flags, stale_s: 0, assets_reduce_only: false, assets_init_limit: 0, assets_isolated: false, unsigned: false, assets_oracle_stale: false, second_debt: false });
                 }
             }
         }
@@ -350,7 +410,7 @@ pub fn cases(tier: Tier, bank: &str, dist: usize, deposits: u64) -> Vec<Case> {
                 for &lsv in &lsvs {
                     for (signer, perm) in [(Signer::RiskAdmin, false), (Signer::Stranger, true)] {
                         let debt = (ins as i128 + deposits as i128 * num / 4) * one + half;
-                        v.push(Case { bank: bank.into(), dist, ins, debt_raw: debt.to_string(), lsv_raw: lsv.to_string(), signer, permissionless: perm, target: 0, assets: 0, account_flags: 0, stale_s, assets_reduce_only: false, assets_init_limit: 0, assets_isolated: false });
+                        v.push(Case { bank: bank.into(), dist, ins, debt_raw: debt.to_string(), lsv_raw: lsv.to_string(), signer, permissionless: perm, target: 0, assets: 0, account_flags: 0, stale_s, assets_reduce_only: false, assets_init_limit: 0, assets_isolated: false, unsigned: false, assets_oracle_stale: false, second_debt: false });
                     }
                 }
             }
@@ -359,31 +419,45 @@ pub fn cases(tier: Tier, bank: &str, dist: usize, deposits: u64) -> Vec<Case> {
     // a solvent account whose collateral bank is reduce-only is still solvent
     for assets in [90_000u64, 110_000, 5_000_000_000] {
         for (signer, perm) in [(Signer::RiskAdmin, false), (Signer::Stranger, true)] {
-            v.push(Case { bank: bank.into(), dist, ins: 1_000, debt_raw: debt.to_string(), lsv_raw: one.to_string(), signer, permissionless: perm, target: 0, assets, account_flags: 0, stale_s: 0, assets_reduce_only: true, assets_init_limit: 0, assets_isolated: false });
+            v.push(Case { bank: bank.into(), dist, ins: 1_000, debt_raw: debt.to_string(), lsv_raw: one.to_string(), signer, permissionless: perm, target: 0, assets, account_flags: 0, stale_s: 0, assets_reduce_only: true, assets_init_limit: 0, assets_isolated: false, unsigned: false, assets_oracle_stale: false, second_debt: false });
         }
     }
     // ... and so is one whose collateral bank caps the value counted for initial margin far below its deposits
     for assets in [110_000u64, 5_000_000_000] {
         for (signer, perm) in [(Signer::RiskAdmin, false), (Signer::Stranger, true)] {
-            v.push(Case { bank: bank.into(), dist, ins: 1_000, debt_raw: debt.to_string(), lsv_raw: one.to_string(), signer, permissionless: perm, target: 0, assets, account_flags: 0, stale_s: 0, assets_reduce_only: false, assets_init_limit: 1, assets_isolated: false });
+            v.push(Case { bank: bank.into(), dist, ins: 1_000, debt_raw: debt.to_string(), lsv_raw: one.to_string(), signer, permissionless: perm, target: 0, assets, account_flags: 0, stale_s: 0, assets_reduce_only: false, assets_init_limit: 1, assets_isolated: false, unsigned: false, assets_oracle_stale: false, second_debt: false });
         }
     }
     // ... and so is one whose assets sit in an isolated-tier bank (they back no borrowing, but they are assets)
     for assets in [110_000u64, 5_000_000_000] {
         for (signer, perm) in [(Signer::RiskAdmin, false), (Signer::Stranger, true)] {
-            v.push(Case { bank: bank.into(), dist, ins: 1_000, debt_raw: debt.to_string(), lsv_raw: one.to_string(), signer, permissionless: perm, target: 0, assets, account_flags: 0, stale_s: 0, assets_reduce_only: false, assets_init_limit: 0, assets_isolated: true });
+            v.push(Case { bank: bank.into(), dist, ins: 1_000, debt_raw: debt.to_string(), lsv_raw: one.to_string(), signer, permissionless: perm, target: 0, assets, account_flags: 0, stale_s: 0, assets_reduce_only: false, assets_init_limit: 0, assets_isolated: true, unsigned: false, assets_oracle_stale: false, second_debt: false });
+        }
+    }
+    // the account owes a second bank too: settling the first must disable it all the same
+    for (signer, perm) in [(Signer::RiskAdmin, false), (Signer::Stranger, true)] {
+        v.push(Case { bank: bank.into(), dist, ins: 1_000, debt_raw: debt.to_string(), lsv_raw: one.to_string(), signer, permissionless: perm, target: 0, assets: 0, account_flags: 0, stale_s: 0, assets_reduce_only: false, assets_init_limit: 0, assets_isolated: false, unsigned: false, assets_oracle_stale: false, second_debt: true });
+    }
+    // the entitled key named but not signing, on a bank without permissionless settlement
+    for signer in [Signer::GroupAdmin, Signer::RiskAdmin] {
+        v.push(Case { bank: bank.into(), dist, ins: 1_000, debt_raw: debt.to_string(), lsv_raw: one.to_string(), signer, permissionless: false, target: 0, assets: 0, account_flags: 0, stale_s: 0, assets_reduce_only: false, assets_init_limit: 0, assets_isolated: false, unsigned: true, assets_oracle_stale: false, second_debt: false });
+    }
+    // a solvent account whose asset bank's oracle went stale
+    for assets in [110_000u64, 5_000_000_000] {
+        for (signer, perm) in [(Signer::RiskAdmin, false), (Signer::Stranger, true)] {
+            v.push(Case { bank: bank.into(), dist, ins: 1_000, debt_raw: debt.to_string(), lsv_raw: one.to_string(), signer, permissionless: perm, target: 0, assets, account_flags: 0, stale_s: 0, assets_reduce_only: false, assets_init_limit: 0, assets_isolated: false, unsigned: false, assets_oracle_stale: true, second_debt: false });
         }
     }
     // a cover large enough for a capped Token-2022 transfer fee to bind (insurance 1,000,000)
     for b in [400_000i128, 999_999, 1_000_000, 1_000_001] {
         for frac in [0i128, half] {
             let d = b * one + frac;
-            v.push(Case { bank: bank.into(), dist, ins: 1_000_000, debt_raw: d.to_string(), lsv_raw: one.to_string(), signer: Signer::RiskAdmin, permissionless: false, target: 0, assets: 0, account_flags: 0, stale_s: 0, assets_reduce_only: false, assets_init_limit: 0, assets_isolated: false });
+            v.push(Case { bank: bank.into(), dist, ins: 1_000_000, debt_raw: d.to_string(), lsv_raw: one.to_string(), signer: Signer::RiskAdmin, permissionless: false, target: 0, assets: 0, account_flags: 0, stale_s: 0, assets_reduce_only: false, assets_init_limit: 0, assets_isolated: false, unsigned: false, assets_oracle_stale: false, second_debt: false });
         }
     }
     // assets above liabilities but under ten cents: not bankrupt
     for debt_small in [one / 100, one * 20_000] {
-        v.push(Case { bank: bank.into(), dist, ins: 0, debt_raw: debt_small.to_string(), lsv_raw: one.to_string(), signer: Signer::RiskAdmin, permissionless: false, target: 0, assets: 50_000, account_flags: 0, stale_s: 0, assets_reduce_only: false, assets_init_limit: 0, assets_isolated: false });
+        v.push(Case { bank: bank.into(), dist, ins: 0, debt_raw: debt_small.to_string(), lsv_raw: one.to_string(), signer: Signer::RiskAdmin, permissionless: false, target: 0, assets: 50_000, account_flags: 0, stale_s: 0, assets_reduce_only: false, assets_init_limit: 0, assets_isolated: false, unsigned: false, assets_oracle_stale: false, second_debt: false });
     }
     v
 }
@@ -556,7 +630,7 @@ pub fn replay(v: &serde_json::Value) -> Vec<crate::mc::Violation> {
         // recreate a killed bank: debt far above deposits, no insurance
         let (w, s0) = base(bank, 0);
         let one = I80F48::ONE.to_bits();
-        let c = Case { bank: bank.into(), dist: 0, ins: 0, debt_raw: (50_000 * one).to_string(), lsv_raw: one.to_string(), signer: Signer::RiskAdmin, permissionless: false, target: 0, assets: 0, account_flags: 0, stale_s: 0, assets_reduce_only: false, assets_init_limit: 0, assets_isolated: false };
+        let c = Case { bank: bank.into(), dist: 0, ins: 0, debt_raw: (50_000 * one).to_string(), lsv_raw: one.to_string(), signer: Signer::RiskAdmin, permissionless: false, target: 0, assets: 0, account_flags: 0, stale_s: 0, assets_reduce_only: false, assets_init_limit: 0, assets_isolated: false, unsigned: false, assets_oracle_stale: false, second_debt: false };
         let j = judge(&w, &s0, &c);
         let Some(k) = j.killed_state else { return vec![] };
         let mut found = vec![];
